@@ -22,7 +22,7 @@ func (m *Machine) call(fv Value, args []Value, site *ssa.CallCommon) Value {
 		m.unsupported("call of non-function %T", fv)
 	}
 	if f.Intr != nil {
-		return f.Intr(m, append(append([]Value(nil), f.Bind...), args...))
+		return f.Intr(m, m.forceLazyArgs("", append(append([]Value(nil), f.Bind...), args...)))
 	}
 	if f.Fn == nil {
 		m.panicNow("nil function call")
@@ -41,24 +41,24 @@ func (m *Machine) call(fv Value, args []Value, site *ssa.CallCommon) Value {
 		}
 	}
 	if in, ok := intrinsics[name]; ok {
-		return in(m, args)
+		return in(m, m.forceLazyArgs(name, args))
 	}
 	if fn.Synthetic == "" || len(fn.Blocks) > 0 {
 		// generic instantiations share the origin's name for intrinsics
 		if o := fn.Origin(); o != nil {
 			if in, ok := intrinsics[o.String()]; ok {
-				return in(m, args)
+				return in(m, m.forceLazyArgs(o.String(), args))
 			}
 		}
 	}
 	if len(fn.Blocks) == 0 {
 		if in := prefixIntrinsic(name); in != nil {
-			return in(m, args)
+			return in(m, m.forceLazyArgs(name, args))
 		}
 		m.unsupported("call of function without body: %s", name)
 	}
 	if in := prefixIntrinsic(name); in != nil {
-		return in(m, args)
+		return in(m, m.forceLazyArgs(name, args))
 	}
 	if m.depth > maxDepth {
 		m.unsupported("call depth exceeded at %s", name)
@@ -293,7 +293,46 @@ func (m *Machine) runDefers(fr *frame) {
 }
 
 // exec runs one non-control instruction.
+// lazyAware: intrinsics that take a LazyBytes argument as it is.
+var lazyAware = map[string]bool{
+	"(*math/big.Int).SetBytes":                          true,
+	"massnet.org/mass-wallet/zzverifrt.PadBigEndian":    true,
+}
+
+// forceLazyOperands: an instruction other than a call, store, phi or return that uses a LazyBytes value gets
+// the materialised slice (the SSA value keeps it from then on).
+func (m *Machine) forceLazyOperands(fr *frame, ins ssa.Instruction) {
+	switch ins.(type) {
+	case *ssa.Call, *ssa.Defer, *ssa.Go, *ssa.Store, *ssa.MakeInterface, *ssa.ChangeType, *ssa.ChangeInterface, *ssa.MakeClosure, *ssa.DebugRef:
+		return
+	}
+	var buf [8]*ssa.Value
+	for _, r := range ins.Operands(buf[:0]) {
+		if r == nil || *r == nil {
+			continue
+		}
+		if l, ok := fr.locals[*r].(LazyBytes); ok {
+			fr.locals[*r] = m.forceLazy(l)
+		}
+	}
+}
+
+func (m *Machine) forceLazyArgs(name string, args []Value) []Value {
+	if lazyAware[name] {
+		return args
+	}
+	for i, a := range args {
+		if l, ok := a.(LazyBytes); ok {
+			args[i] = m.forceLazy(l)
+		}
+	}
+	return args
+}
+
 func (m *Machine) exec(fr *frame, ins ssa.Instruction) {
+	if m.Cfg.LazyBigBytes {
+		m.forceLazyOperands(fr, ins)
+	}
 	switch x := ins.(type) {
 	case *ssa.DebugRef:
 	case *ssa.Alloc:
@@ -483,7 +522,7 @@ func (m *Machine) doCall(fr *frame, cc *ssa.CallCommon, fn Value, args []Value) 
 		return m.invoke(cc, args[0], args[1:])
 	}
 	if f, ok := fn.(FuncVal); ok && f.Fn == nil && f.Intr == nil && len(f.IName) > 8 && f.IName[:8] == "builtin:" {
-		return m.builtin(fr, f.IName[8:], args, cc)
+		return m.builtin(fr, f.IName[8:], m.forceLazyArgs("", args), cc)
 	}
 	if f, ok := fn.(FuncVal); ok && f.Fn != nil {
 		// callee init
@@ -506,14 +545,14 @@ func (m *Machine) invoke(cc *ssa.CallCommon, recv Value, args []Value) Value {
 		m.panicNow("nil interface method call %s", cc.Method.Name())
 	}
 	if h, ok := iv.V.(*HashAcc); ok {
-		return m.hashMethod(h, cc.Method.Name(), args)
+		return m.hashMethod(h, cc.Method.Name(), m.forceLazyArgs("", args))
 	}
 	if o, ok := iv.V.(Opaque); ok {
-		return m.opaqueMethod(o, cc.Method.Name(), args)
+		return m.opaqueMethod(o, cc.Method.Name(), m.forceLazyArgs("", args))
 	}
 	if p, ok := iv.V.(Ptr); ok && !p.IsNil() && len(p.Path) == 0 {
 		if o, ok2 := p.Obj.Val.(Opaque); ok2 {
-			return m.opaqueMethod(o, cc.Method.Name(), args)
+			return m.opaqueMethod(o, cc.Method.Name(), m.forceLazyArgs("", args))
 		}
 	}
 	sel := m.P.Prog.MethodSets.MethodSet(iv.T).Lookup(cc.Method.Pkg(), cc.Method.Name())
